@@ -176,7 +176,7 @@ def _cost(i):
     """rough single-core seconds (measured), only used to order the work list"""
     fam, n, k = i["family"], i.get("nvec", 0), i.get("k", 0)
     if fam == "fp":
-        return 40.0
+        return 1e6          # cheap, but first: their samples (witness, real-code runs) then appear in the evidence
     if fam == "quadratic":
         return 400.0
     if n == 0:
@@ -674,6 +674,17 @@ def _fp_transport_float64(s, x_start, span=4096):
     return None
 
 
+def _fp_on_real_code(c, dtype, s, d, x0):
+    """the real code in the lemma's dtype, then the same slope transported to float64; True iff the defect shows"""
+    dt = np.dtype(dtype).type
+    own = _fp_real_code(dt, s, d, x0)
+    c.note("real_code_" + dtype, own)
+    t = _fp_transport_float64(s, x0)
+    f64 = _fp_real_code(np.float64, *t) if t is not None else dict(defect=False, note="no float64 instance found near the witness")
+    c.note("real_code_float64" + ("_transported" if dtype == "float64" else ""), f64)
+    return bool(own["defect"] or f64["defect"])
+
+
 def _fp_lemma(c, inst):
     dtype = inst["dtype"]
     if c.symbolic:
@@ -687,19 +698,15 @@ def _fp_lemma(c, inst):
             c.note("qf_fp", "no counterexample in %s" % dtype)
             return
         c.note("qf_fp_witness", {k: float(v) for k, v in wit.items()})
-        for k, v in wit.items():            # hand the bit-precise witness to the float replay through the path inputs
+        # pure float runs of the real code on the bit-precise witness (recorded in the evidence sample; the verdict is the replay's)
+        defect = _fp_on_real_code(c, dtype, float(wit["s"]), float(wit["d"]), float(wit["x0"]))
+        for k, v in wit.items():            # hand the witness to the float replay through the path inputs
             c.assume(c.eq(c.real(k), v))
-        c.check(FP_CHECK, False, info=dict(dtype=dtype, witness={k: str(v) for k, v in wit.items()}), regions={KEY: True})
+        # the lemma only says that no representable point has a small residual; whether the REAL acceptance test still certifies the
+        # bracketed sign change is decided by running the real code on the bit-precise witness
+        c.check(FP_CHECK, not defect, info=dict(dtype=dtype, witness={k: str(v) for k, v in wit.items()}), regions={KEY: True})
         return
-    # float replay: the real code in the lemma's dtype, then the same slope transported to float64
-    dt = np.dtype(dtype).type
-    s, d, x0 = c.real("s"), c.real("d"), c.real("x0")
-    own = _fp_real_code(dt, s, d, x0)
-    c.note("real_code_" + dtype, own)
-    t = _fp_transport_float64(s, x0)
-    f64 = _fp_real_code(np.float64, *t) if t is not None else dict(defect=False, note="no float64 instance found near the witness")
-    c.note("real_code_float64", f64)
-    c.check(FP_CHECK, not (own["defect"] or f64["defect"]))
+    c.check(FP_CHECK, not _fp_on_real_code(c, dtype, c.real("s"), c.real("d"), c.real("x0")))
 
 
 REPLAY_TOL = 4 * EPS64
